@@ -112,13 +112,18 @@ def subscribe(
         cast(Instrumentation, instrumentation).on_execution_end()
         return response_stream
 
-    return runtime.ensure_wrapped(
-        runtime.map_value(
-            create_source_event_stream(
-                executor, root_type, operation, initial_value
-            ),
-            _on_stream_created,
+    try:
+        source_stream = create_source_event_stream(
+            executor, root_type, operation, initial_value
         )
+    except Exception:
+        # The execution stage has been started, make sure it's closed when
+        # the source stream cannot be created.
+        instrumentation.on_execution_end()
+        raise
+
+    return runtime.ensure_wrapped(
+        runtime.map_value(source_stream, _on_stream_created)
     )
 
 
